@@ -3,7 +3,9 @@ package jmodel
 import (
 	"fmt"
 	"math"
+	"math/big"
 	"strconv"
+	"strings"
 	"unicode/utf16"
 	"unicode/utf8"
 
@@ -149,7 +151,7 @@ func (w *W) Float(f float64) {
 	}
 	form := 0
 	if w.Variants {
-		form = rapid.IntRange(0, 4).Draw(w.T, "floatForm")
+		form = rapid.IntRange(0, 7).Draw(w.T, "floatForm")
 	}
 	var s string
 	switch form {
@@ -167,6 +169,16 @@ func (w *W) Float(f float64) {
 	case 4:
 		s = strconv.FormatFloat(f, 'g', 17, 64)
 		w.Stats["float-17-digits"]++
+	case 5, 6, 7:
+		// long spellings that only an exact (arbitrary-precision) parser rounds correctly: the exact decimal expansion of f,
+		// and numbers a hair inside the rounding interval of f (just below the midpoint to the next double / just above the
+		// midpoint to the previous one), 40..770 significant digits
+		s = longSpelling(f, form)
+		if g, err := strconv.ParseFloat(s, 64); err != nil || math.Float64bits(g) != math.Float64bits(f) {
+			s = strconv.FormatFloat(f, 'g', -1, 64)
+		} else {
+			w.Stats["float-long-spelling"]++
+		}
 	default:
 		s = strconv.FormatFloat(f, 'g', -1, 64)
 	}
@@ -230,4 +242,55 @@ func (w *W) JunkValue(depth int) {
 		w.WS()
 		w.Raw("}")
 	}
+}
+
+// exactText renders x exactly in d.ddde±xx form (binary fractions have finite decimal expansions).
+func exactText(x *big.Float) string {
+	t := x.Text('e', 1100)
+	i := strings.IndexByte(t, 'e')
+	m, e := t[:i], t[i:]
+	m = strings.TrimRight(m, "0")
+	if strings.HasSuffix(m, ".") {
+		m += "0"
+	}
+	return m + e
+}
+
+func longSpelling(f float64, form int) string {
+	neg := f < 0
+	a := math.Abs(f)
+	x := new(big.Float).SetPrec(2400).SetFloat64(a)
+	var t string
+	switch form {
+	case 5:
+		t = exactText(x)
+	case 6:
+		up := math.Nextafter(a, math.Inf(1))
+		if math.IsInf(up, 0) {
+			return strconv.FormatFloat(f, 'g', -1, 64)
+		}
+		hi := new(big.Float).SetPrec(2400).SetFloat64(up)
+		hi.Add(hi, x).Quo(hi, big.NewFloat(2))
+		t = exactText(hi)
+		// one unit less in the last mantissa digit: just below the midpoint
+		i := strings.IndexByte(t, 'e')
+		m := []byte(t[:i])
+		m[len(m)-1]--
+		t = string(m) + t[i:]
+	default:
+		dn := math.Nextafter(a, 0)
+		if a == 0 || dn == a {
+			return strconv.FormatFloat(f, 'g', -1, 64)
+		}
+		lo := new(big.Float).SetPrec(2400).SetFloat64(dn)
+		lo.Add(lo, x).Quo(lo, big.NewFloat(2))
+		t = exactText(lo)
+		// one more digit: just above the midpoint
+		i := strings.IndexByte(t, 'e')
+		t = t[:i] + "1" + t[i:]
+	}
+	if neg {
+		t = "-" + t
+	}
+	return t
 }
